@@ -8,6 +8,7 @@ import (
 
 	"pgregory.net/rapid"
 
+	"verif/internal/diff"
 	"verif/internal/h"
 	"verif/internal/ref"
 	"verif/internal/rt"
@@ -512,6 +513,12 @@ func TestProp(t *testing.T) {
 	r.Rule("rapid-generated grammars: 1-4 ranked non-terminals of arity 0-2 (a rule may call itself or a lower rank only after consuming a terminal, so no left recursion), 1-3 rules each, bodies at nesting depth <= 3 over terminal lists (incl. variables as terminals), strings, non-terminals with arguments, sequence, alternation with ; and |, {}//1, \\+//1, !//0 (as a direct member of the body's top-level sequence or of a top-level alternative), call//N with closures, if-then-else and if-then, push-back heads. Each grammar is loaded by Exec of the --> text and by expand_term/2 + assertz/1; a generated body is also given directly to phrase/3. For every input list up to length 4 over {a,b,c} (121 lists, exhaustively; quick: up to length 3): phrase/2 (recognition), phrase/3 with an open remainder (all remainders), phrase/3 with every bound non-empty remainder that is a suffix of the input; plus generation mode (input unbound, first 20 answers, compared as a sequence). Oracle: the reference grammar interpreter (direct interpretation of the body on difference lists, no translation). Compared: the multiset of answers (argument bindings and remainder) and any error. Non-trivial: the grammar uses one of {\\+, !, ->, call//N, push-back, {}} and accepts at least one input and rejects at least one. Distinct by grammar.",
 		"the reference grammar interpreter (internal/ref/dcg.go)",
 		"! nested inside a non-top-level ;, | or -> of a grammar body and {!} are outside the property and not generated")
+	if r.Shard() == 0 {
+		if err := diff.OracleSelfTest(); err != nil {
+			t.Fatalf("%v", err)
+		}
+		r.LabelN("oracle_self_test_examples", ref.NExamples())
+	}
 	r.Regress(t)
 	if r.Failed() {
 		return
